@@ -187,6 +187,17 @@ def job(payload):
                             bad.append(("O2:E+ != distinct(E E*)", dict(plus=t3, seq=t2)))
                         if len(keys(r2)) != len(set(keys(r2))):
                             out["cyclic"] += 1
+                    # two closures in a row: the second starts from a clean slate for every stack the first yields (X* X* is not X*)
+                    if i % 3 == 0:
+                        for k1, k2 in (("*", "*"), ("*", "+"), ("+", "*")):
+                            p5 = ("cat", list(s) + [("close", k1, body), ("close", k2, body)])
+                            t5, r5 = run(p5)
+                            m5 = M.run(p5, budget=400000)
+                            out["rel"] += 1
+                            if r5["st"] == "done" and m5["status"] not in ("indeterminate", "budget"):
+                                why = zcheck.compare_model(m5, r5)
+                                if why:
+                                    bad.append(("O1:two closures in a row:" + why, dict(text=t5, **zcheck.describe(m5, r5))))
                     # suffix collapsing
                     for a, b in (("**", "*"), ("+*", "*"), ("*+", "*"), ("++", "+")):
                         ta = zast.text(("cat", list(s))) + " " + " ".join(zast.stmt(body)) + " " + " ".join(a)
